@@ -394,3 +394,46 @@ Proof.
   split; [vm_compute; reflexivity|]. split; [reflexivity|].
   eexists. split; [vm_compute; reflexivity|]. split; [vm_compute; reflexivity|]. split; vm_compute; reflexivity.
 Qed.
+
+(* ---- (b, -m) makeMultiTrackSegments ----
+   mux_segments: for every segment number, CreateMultiTrackFragment(ids), then per track in order
+   GetFullSamplesForInterval + AddFullSampleToTrack, Fragment.Encode.  For ANY number of tracks with pairwise
+   different output ids, consistent tables pointing into the file, fewer than 2^32 samples in total, and interval
+   lists of one common length that tile each track (which is what the plan gives: C11_plan_shape,
+   C11_intervals_tile): reading ANY of the tracks back from the multiplexed segments, in order, gives exactly that
+   track's expansion (C05_roundtrip in its multi-track form: runs of different tracks in one mdat). *)
+From V.c11 Require Import C11MuxProofs.
+Theorem C11_segmenter_mux_end_to_end : forall opt (f : pfile) pos0 (trs : list strack) nsegs fes,
+  NoDup (map st_id trs) -> total_samples trs < 4294967296 -> (1 <= nsegs)%nat ->
+  Forall (fun t => C09Spec.consistent (st_tb t) = true /\ data_ok f (st_tb t) = true /\
+                   length (st_ivs t) = nsegs /\
+                   concat (map C11Model.range (st_ivs t)) = seqN1 (nsamples (st_tb t))) trs ->
+  mux_segments opt f trs nsegs = Ok fes ->
+  Forall (fun fe => seg_guard pos0 fe = true) fes ->
+  Forall (fun t => forall tx : C05Model.trex, tx_track tx = st_id t ->
+            exists outs, read_all (read_back tx pos0 []) fes = Ok outs /\
+                         map Some (concat outs) = expansion f (st_tb t)) trs.
+Proof. exact mux_end_to_end_all. Qed.
+Print Assumptions C11_segmenter_mux_end_to_end.
+
+Theorem C11_plan_shape : forall (ts : list C11Model.track) d ivss, segment_plan ts d = Ok ivss ->
+  exists nsegs, (1 <= nsegs)%nat /\ Forall (fun ivs => length ivs = nsegs) ivss.
+Proof. exact plan_shape. Qed.
+Print Assumptions C11_plan_shape.
+
+(* satisfiable: the video track above + a 5-sample audio track in the same file, multiplexed into two segments *)
+Definition ex_e2e_audio_tb : tables :=
+  mkTables [5] [1024] None (mkStsc [mkEntry 1 5 1] 1 []) (mkStsz 2 5 []) (Some [60]) None None None.
+Example C11_segmenter_mux_end_to_end_example :
+  C09Spec.consistent ex_e2e_audio_tb = true /\ data_ok ex_e2e_file ex_e2e_audio_tb = true /\
+  segment_plan [itrack_of (true, 1000, ex_e2e_tb); itrack_of (false, 48000, ex_e2e_audio_tb)] 30
+    = Ok [[(1, 4); (5, 7)]; [(1, 3); (4, 5)]] /\
+  let trs := [(ex_e2e_tb, 1, [(1, 4); (5, 7)]); (ex_e2e_audio_tb, 2, [(1, 3); (4, 5)])] in
+  exists fes, mux_segments false ex_e2e_file trs 2 = Ok fes /\ forallb (seg_guard 24) fes = true /\
+    option_map (map (map fs_dts))
+      (match read_all (read_back (C05Model.mkTrex 2 0 0 0) 24 []) fes with Ok o => Some o | _ => None end)
+    = Some [[0; 1024; 2048]; [3072; 4096]].
+Proof.
+  split; [vm_compute; reflexivity|]. split; [vm_compute; reflexivity|]. split; [vm_compute; reflexivity|].
+  eexists. split; [vm_compute; reflexivity|]. split; vm_compute; reflexivity.
+Qed.
